@@ -8173,7 +8173,7 @@ struct HFSM2_EMPTY_BASES S_
 	HFSM2_CONSTEXPR(14)	TaskStatus	 deepUpdatePlans	  ( FullControl& control)								noexcept;
 #endif
 
-	HFSM2_CONSTEXPR(14)	bool		 deepForwardExitGuard (GuardControl&		)								noexcept	{ return false;		}
+	HFSM2_CONSTEXPR(14)	bool		 deepForwardExitGuard (GuardControl&		)								noexcept	{ return true;		}
 	HFSM2_CONSTEXPR(14)	bool		 deepExitGuard		  (GuardControl& control)								noexcept;
 
 	HFSM2_CONSTEXPR(14)	void		 deepExit			  ( PlanControl& control)								noexcept;
@@ -8824,7 +8824,7 @@ struct S_<TIndices, TArgs, EmptyT<TArgs>>
 	HFSM2_CONSTEXPR(14)	TaskStatus	 deepUpdatePlans	  ( FullControl& control)								noexcept;
 #endif
 
-	HFSM2_CONSTEXPR(14)	bool		 deepForwardExitGuard (GuardControl&		)								noexcept	{ return false;		}
+	HFSM2_CONSTEXPR(14)	bool		 deepForwardExitGuard (GuardControl&		)								noexcept	{ return true;		}
 	HFSM2_CONSTEXPR(14)	bool		 deepExitGuard		  (GuardControl& control)								noexcept;
 
 	HFSM2_CONSTEXPR(14)	void		 deepExit			  ( PlanControl& control)								noexcept;
